@@ -123,6 +123,7 @@ func runC06(c *Check, w *World) {
 		}
 	}
 	ruleHistoryIndependence(c, w, tb, ef, "R06.H", gen, val)
+	checkRESTEndpoints(c, w, tb, ef, "R06.REST", "/ocra/generate", "/ocra/validate")
 	c.Floor("R06.1", 2)
 	c.Floor("R06.2", 1)
 	c.Floor("R06.4", 5)
